@@ -860,4 +860,45 @@ def _nesting_kind(t: _FNode) -> str:
     return "; ".join(walk(t)) or cat(t)
 
 
-RULES = [r10_1, r10_2, r10_3, r10_4, r10_5, r10_6, r10_7, r10_8, r10_9, r10_10, r10_11]
+def r10_12(ctx: Ctx, rule: str = "R10.12", spellings: Optional[Dict[str, str]] = None) -> RuleResult:
+    """A query embedded in a filter prints with the identifier it was written with: `$` or `^` for a root query (the
+    fake root stays the fake root), `@` for a relative query, `_` for the filter context.  The four string forms are
+    executed abstractly (rules/model.py) on an embedded query with and without the fake-root flag."""
+    from sa.peval import UNKNOWN
+    from sa.peval import Text
+
+    from .model import MObj
+    from .model import Model
+
+    rr = RuleResult(rule, "embedded queries print with the identifier they were written with", floor=4)
+    env_cls = ctx.repo.require_class("JSONPathEnvironment")
+    try:
+        toks = {k: ctx.folder.class_attr(env_cls, k) for k in ("root_token", "fake_root_token", "self_token", "filter_context_token")}
+    except NotConst as err:
+        raise AnalysisError(f"{rule}: environment tokens cannot be folded: {err}") from err
+    if spellings:
+        toks = dict(toks, **spellings)
+    cases = [("RootPath", False, toks["root_token"]), ("RootPath", True, toks["fake_root_token"]),
+             ("SelfPath", False, toks["self_token"]), ("FilterContextPath", False, toks["filter_context_token"])]
+    for cname, fake, want in cases:
+        model = Model(ctx, "R10.12")
+        model.whole_bodies = True
+        env = MObj(model, "JSONPathEnvironment", dict(spellings or {}))
+        seg = MObj(model, "PropertySelector", {"$text": "['a']"})
+        path = MObj(model, "JSONPath", {"env": env, "selectors": (seg,), "fake_root": fake})
+        node = MObj(model, cname, {"path": path, "volatile": UNKNOWN})
+        text = node.peval_str()
+        fn = ctx.repo.find_method(ctx.repo.require_class("jsonpath.filter." + cname), "__str__")
+        if isinstance(text, Text) or text is UNKNOWN or not isinstance(text, str):
+            raise AnalysisError(f"R10.12: the string form of {cname} cannot be determined ({text!r})")
+        expect = f"{want}['a']"
+        if text == expect:
+            rr.ok(fn.loc() if fn else "", f"{cname} ({'fake root' if fake else 'plain'}): `{text}`")
+        else:
+            rr.bad(fn, fn.node if fn else None, f"a {'fake-root ' if fake else ''}query embedded in a filter as {cname} prints as `{text}` instead of `{expect}`: the text "
+                   "recompiles to a different query" + (" (`^` became `$`: the document is no longer wrapped)" if fake else ""),
+                   construct=f"{cname}{' (fake root)' if fake else ''}: {text} instead of {expect}")
+    return rr
+
+
+RULES = [r10_1, r10_2, r10_3, r10_4, r10_5, r10_6, r10_7, r10_8, r10_9, r10_10, r10_11, r10_12]
